@@ -23,6 +23,7 @@ import (
 	"sort"
 	"strings"
 	"sync"
+	"time"
 )
 
 // Cryptoki constants used by the model (values from pkcs11t.h)
@@ -118,9 +119,10 @@ func RVByName(n string) uint64 {
 }
 
 type Event struct {
-	Fn  string `json:"fn"`
-	Arg string `json:"arg"`
-	RV  string `json:"rv"`
+	Fn   string `json:"fn"`
+	Arg  string `json:"arg"`
+	RV   string `json:"rv"`
+	Conn int    `json:"conn,omitempty"` // with TagConns: which application (connection to the model, from 1) made the call
 }
 
 type Object struct {
@@ -156,6 +158,7 @@ type signOp struct {
 	cached []byte // computed at the length query
 }
 type session struct {
+	conn int
 	slot uint64
 	rw   bool
 	find *findOp
@@ -167,19 +170,23 @@ type Model struct {
 	PinName    func(string) string
 	DigestName func([]byte) string
 	OnEvent    func(Event)
+	TagConns   bool // several applications (processes) use the token: events carry the connection, connections are logged
 
 	ln       net.Listener
 	mu       sync.Mutex
 	k        Knobs
-	inited   bool
+	inited   map[int]bool // per application
 	sessions map[uint64]*session
 	nextSess uint64
-	loggedIn map[uint64]bool // per slot
+	loggedIn map[[2]uint64]bool // per application (connection) and slot: login state belongs to the application
+	cur      int                // connection whose call is being dispatched
+	nconn    int
 	tries    int
 	objects  []*Object
 	nextObj  uint64
 	tr       []Event
 	calls    map[string]int
+	delay    map[string]time.Duration
 }
 
 func Start(path string) (*Model, error) {
@@ -187,7 +194,7 @@ func Start(path string) (*Model, error) {
 	if err != nil {
 		return nil, err
 	}
-	m := &Model{Path: path, ln: ln, nextSess: 100, nextObj: 1000}
+	m := &Model{Path: path, ln: ln, nextSess: 100, nextObj: 1000, inited: map[int]bool{}}
 	m.Arm(Knobs{})
 	go func() {
 		for {
@@ -212,15 +219,47 @@ func (m *Model) Arm(k Knobs) {
 	}
 	m.k = k
 	m.sessions = map[uint64]*session{}
-	m.loggedIn = map[uint64]bool{}
-	for _, s := range k.Slots {
-		if k.LoggedIn {
-			m.loggedIn[s.ID] = true
-		}
-	}
+	m.loggedIn = map[[2]uint64]bool{}
 	m.tries = k.Tries0
 	m.tr = nil
 	m.calls = map[string]int{}
+}
+
+// SetRightPin: somebody changes the user PIN on the token while applications are running
+func (m *Model) SetRightPin(pin string) {
+	m.mu.Lock()
+	m.k.RightPin = pin
+	m.mu.Unlock()
+}
+
+// SetFail arms (v != "") or disarms a forced failure at run time; "<Function>" applies to every later call,
+// "<Function>+1" to the next call of that function only
+func (m *Model) SetFail(fn, v string) {
+	m.mu.Lock()
+	defer m.mu.Unlock()
+	if m.k.Fail == nil {
+		m.k.Fail = map[string]string{}
+	}
+	if v == "" {
+		delete(m.k.Fail, fn)
+		return
+	}
+	if strings.HasSuffix(fn, "+1") {
+		base := strings.TrimSuffix(fn, "+1")
+		m.k.Fail[fmt.Sprintf("%s#%d", base, m.calls[base]+1)] = v
+		return
+	}
+	m.k.Fail[fn] = v
+}
+
+// SetDelay: calls of this function take that long (a slow HSM)
+func (m *Model) SetDelay(fn string, d time.Duration) {
+	m.mu.Lock()
+	if m.delay == nil {
+		m.delay = map[string]time.Duration{}
+	}
+	m.delay[fn] = d
+	m.mu.Unlock()
 }
 
 func (m *Model) ClearObjects() {
@@ -233,6 +272,13 @@ func (m *Model) Transcript() []Event {
 	m.mu.Lock()
 	defer m.mu.Unlock()
 	return append([]Event{}, m.tr...)
+}
+
+// Conns: connections (applications) seen so far
+func (m *Model) Conns() int {
+	m.mu.Lock()
+	defer m.mu.Unlock()
+	return m.nconn
 }
 
 // OpenSessions: sessions not closed by the application
@@ -358,6 +404,33 @@ func (w *wr) bs(b []byte)  { w.u64(uint64(len(b))); w.Write(b) }
 
 func (m *Model) serve(c net.Conn) {
 	defer c.Close()
+	m.mu.Lock()
+	m.nconn++
+	id := m.nconn
+	if m.TagConns {
+		m.cur = id
+		m.log("ConnOpen", "", CKR_OK)
+	}
+	m.mu.Unlock()
+	defer func() {
+		// the application is gone: its sessions and its login state go with it
+		m.mu.Lock()
+		m.cur = id
+		for h, s := range m.sessions {
+			if s.conn == id {
+				delete(m.sessions, h)
+			}
+		}
+		for k := range m.loggedIn {
+			if k[0] == uint64(id) {
+				delete(m.loggedIn, k)
+			}
+		}
+		if m.TagConns {
+			m.log("ConnClose", "", CKR_OK)
+		}
+		m.mu.Unlock()
+	}()
 	for {
 		var hdr [8]byte
 		if _, err := io.ReadFull(c, hdr[:]); err != nil {
@@ -372,8 +445,19 @@ func (m *Model) serve(c net.Conn) {
 		fn := r.u64()
 		w := &wr{}
 		m.mu.Lock()
+		m.cur = id
+		if !m.TagConns {
+			m.cur = 0
+		}
 		rv := m.dispatch(fn, r, w)
+		var nap time.Duration
+		if fn == 14 /* SignInit */ {
+			nap = m.delay["SignInit"]
+		}
 		m.mu.Unlock()
+		if nap > 0 {
+			time.Sleep(nap) // a slow token: the call has been recorded, its answer takes a while
+		}
 		out := append(ulong(rv), w.Bytes()...)
 		if _, err := c.Write(out); err != nil {
 			return
@@ -381,12 +465,18 @@ func (m *Model) serve(c net.Conn) {
 	}
 }
 
+func (m *Model) isLogged(slot uint64) bool { return m.k.LoggedIn || m.loggedIn[[2]uint64{uint64(m.cur), slot}] }
+func (m *Model) setLogged(slot uint64, v bool) { m.loggedIn[[2]uint64{uint64(m.cur), slot}] = v }
+
 func (m *Model) log(fn, arg string, rv uint64) {
 	name, ok := rvNames[rv]
 	if !ok {
 		name = fmt.Sprintf("0x%x", rv)
 	}
-	e := Event{fn, arg, name}
+	e := Event{Fn: fn, Arg: arg, RV: name}
+	if m.TagConns {
+		e.Conn = m.cur
+	}
 	m.tr = append(m.tr, e)
 	if m.OnEvent != nil {
 		m.OnEvent(e)
@@ -501,15 +591,15 @@ func (m *Model) dispatch(fn uint64, r *rd, w *wr) uint64 {
 		rv := uint64(CKR_OK)
 		if f, ok := m.forced("Initialize"); ok {
 			rv = f
-		} else if m.inited {
+		} else if m.inited[m.cur] {
 			rv = CKR_CRYPTOKI_ALREADY_INIT
 		} else {
-			m.inited = true
+			m.inited[m.cur] = true
 		}
 		m.log("Initialize", "", rv)
 		return rv
 	case fnFinalize:
-		m.inited = false
+		delete(m.inited, m.cur)
 		m.log("Finalize", "", CKR_OK)
 		return CKR_OK
 	case fnGetSlotList:
@@ -592,7 +682,7 @@ func (m *Model) dispatch(fn uint64, r *rd, w *wr) uint64 {
 		if rv == CKR_OK {
 			m.nextSess++
 			h = m.nextSess
-			m.sessions[h] = &session{slot: id, rw: flags&CKF_RW_SESSION != 0}
+			m.sessions[h] = &session{conn: m.cur, slot: id, rw: flags&CKF_RW_SESSION != 0}
 		}
 		m.log("OpenSession", fmt.Sprint(id), rv)
 		w.u64(h)
@@ -608,12 +698,12 @@ func (m *Model) dispatch(fn uint64, r *rd, w *wr) uint64 {
 			// the last session of a token going away logs the application out
 			last := true
 			for _, o := range m.sessions {
-				if o.slot == s.slot {
+				if o.slot == s.slot && o.conn == s.conn {
 					last = false
 				}
 			}
-			if last && !m.k.LoggedIn {
-				m.loggedIn[s.slot] = false
+			if last {
+				m.setLogged(s.slot, false)
 			}
 		}
 		m.log("CloseSession", sessName(ok), rv)
@@ -621,11 +711,11 @@ func (m *Model) dispatch(fn uint64, r *rd, w *wr) uint64 {
 	case fnCloseAll:
 		id := r.u64()
 		for h, s := range m.sessions {
-			if s.slot == id {
+			if s.slot == id && s.conn == m.cur {
 				delete(m.sessions, h)
 			}
 		}
-		m.loggedIn[id] = false
+		m.setLogged(id, false)
 		m.log("CloseAllSessions", fmt.Sprint(id), CKR_OK)
 		return CKR_OK
 	case fnGetSessionInfo:
@@ -641,11 +731,11 @@ func (m *Model) dispatch(fn uint64, r *rd, w *wr) uint64 {
 		if rv == CKR_OK {
 			state := uint64(CKS_RO_PUBLIC_SESSION)
 			switch {
-			case s.rw && m.loggedIn[s.slot]:
+			case s.rw && m.isLogged(s.slot):
 				state = CKS_RW_USER_FUNCTIONS
 			case s.rw:
 				state = CKS_RW_PUBLIC_SESSION
-			case m.loggedIn[s.slot]:
+			case m.isLogged(s.slot):
 				state = CKS_RO_USER_FUNCTIONS
 			}
 			fl := uint64(CKF_SERIAL_SESSION)
@@ -670,12 +760,12 @@ func (m *Model) dispatch(fn uint64, r *rd, w *wr) uint64 {
 			rv = f
 		case !ok:
 			rv = CKR_SESSION_HANDLE_INVALID
-		case m.loggedIn[s.slot]:
+		case m.isLogged(s.slot):
 			rv = CKR_USER_ALREADY_LOGGED_IN
 		case m.tries == 0:
 			rv = CKR_PIN_LOCKED
 		case pin == m.k.RightPin:
-			m.loggedIn[s.slot] = true
+			m.setLogged(s.slot, true)
 			m.tries = m.k.Tries0
 		default:
 			m.tries--
@@ -689,10 +779,10 @@ func (m *Model) dispatch(fn uint64, r *rd, w *wr) uint64 {
 		rv := uint64(CKR_OK)
 		if !ok {
 			rv = CKR_SESSION_HANDLE_INVALID
-		} else if !m.loggedIn[s.slot] {
+		} else if !m.isLogged(s.slot) {
 			rv = CKR_USER_NOT_LOGGED_IN
 		} else {
-			m.loggedIn[s.slot] = false
+			m.setLogged(s.slot, false)
 		}
 		m.log("Logout", "", rv)
 		return rv
@@ -715,7 +805,7 @@ func (m *Model) dispatch(fn uint64, r *rd, w *wr) uint64 {
 					continue
 				}
 				// private objects are invisible until the user is logged in
-				if p := o.Attrs[CKA_PRIVATE]; len(p) == 1 && p[0] == 1 && !m.loggedIn[s.slot] {
+				if p := o.Attrs[CKA_PRIVATE]; len(p) == 1 && p[0] == 1 && !m.isLogged(s.slot) {
 					continue
 				}
 				match := true
@@ -856,7 +946,7 @@ func (m *Model) dispatch(fn uint64, r *rd, w *wr) uint64 {
 			rv = CKR_SESSION_HANDLE_INVALID
 		case s.sign != nil:
 			rv = CKR_OPERATION_ACTIVE
-		case !m.loggedIn[s.slot]:
+		case !m.isLogged(s.slot):
 			rv = CKR_USER_NOT_LOGGED_IN
 		case o == nil || o.Signer == nil:
 			rv = CKR_KEY_HANDLE_INVALID
@@ -953,7 +1043,7 @@ func (m *Model) dispatch(fn uint64, r *rd, w *wr) uint64 {
 			rv = f
 		case !ok:
 			rv = CKR_SESSION_HANDLE_INVALID
-		case !m.loggedIn[s.slot]:
+		case !m.isLogged(s.slot):
 			rv = CKR_USER_NOT_LOGGED_IN
 		default:
 			attrs := map[uint64][]byte{}
@@ -996,7 +1086,7 @@ func (m *Model) dispatch(fn uint64, r *rd, w *wr) uint64 {
 			rv = f
 		case !ok:
 			rv = CKR_SESSION_HANDLE_INVALID
-		case !m.loggedIn[s.slot]:
+		case !m.isLogged(s.slot):
 			rv = CKR_USER_NOT_LOGGED_IN
 		default:
 			var signer crypto.Signer
